@@ -34,6 +34,20 @@ func NewHandler(kind string, w io.Writer, threshold int, addSource bool) logger.
 	panic("logrun: unknown handler kind " + kind)
 }
 
+// NewHandlerColor is NewHandler with the colour option given.
+func NewHandlerColor(kind string, w io.Writer, threshold int, addSource, colorful bool) logger.Handler {
+	opts := logger.NewOptions(Levels[threshold], colorful, addSource)
+	switch kind {
+	case "nano":
+		return logger.NewNanoHandler(w, opts)
+	case "text":
+		return logger.NewTextHandler(w, opts)
+	case "json":
+		return logger.NewJsonHandler(w, opts)
+	}
+	panic("logrun: unknown handler kind " + kind)
+}
+
 var ctx = context.Background()
 
 // NewHandlerLevel is NewHandler with an arbitrary numeric threshold (not only the five named levels).
